@@ -393,6 +393,55 @@ fn unresolved(acc: &C16Access, mr: &ModuleReference) -> Vec<(Location, String)> 
     .collect()
 }
 
+/// positions of the names that make a class "already available" in a document: import members and
+/// toplevel names
+fn class_binding_sites(text: &str) -> Vec<(Position, Position)> {
+  let mut heap = Heap::new();
+  let mut errors = samlang_errors::ErrorSet::new();
+  let mr = heap.alloc_module_reference_from_string_vec(vec!["Scratch".to_string()]);
+  let module = samlang_parser::parse_source_module_from_text(text, mr, &mut heap, &mut errors);
+  let mut v = Vec::new();
+  for i in &module.imports {
+    for m in &i.imported_members {
+      v.push((m.loc.start, m.loc.end));
+    }
+  }
+  for t in &module.toplevels {
+    let n = t.name();
+    v.push((n.loc.start, n.loc.end));
+  }
+  v
+}
+
+/// errors that say the import of `class` does not do what it says: the import does not resolve
+/// (missing export / missing module), or the class was already available in the document (bound by
+/// another import or declared at toplevel) and the new import collides with that binding.
+/// Collisions with other names of the user's program (locals, pattern bindings) are not counted.
+fn import_related_errors(acc: &C16Access, mr: &ModuleReference, class: &str, text: &str) -> Vec<(String, String)> {
+  let st = acc.state();
+  let sites = class_binding_sites(text);
+  st.get_errors(mr)
+    .iter()
+    .filter_map(|e| {
+      let kind = match &e.detail {
+        ErrorDetail::NameAlreadyBound { name, old_loc } => {
+          let here = (e.location.start, e.location.end);
+          let there = (old_loc.start, old_loc.end);
+          if name.as_str(&st.heap) == class && sites.contains(&here) && sites.contains(&there) {
+            "NameAlreadyBound"
+          } else {
+            return None;
+          }
+        }
+        ErrorDetail::MissingExport { name, .. } if name.as_str(&st.heap) == class => "MissingExport",
+        ErrorDetail::CannotResolveModule { .. } => "CannotResolveModule",
+        _ => return None,
+      };
+      Some((kind.to_string(), e.to_ide_format(&st.heap, &st.string_sources).ide_error))
+    })
+    .collect()
+}
+
 fn note_layout(acc: &mut C16Access, old_text: &str) {
   let l = layout_class(old_text);
   if l.contains("imports=none") {
@@ -410,6 +459,8 @@ fn commit(acc: &mut C16Access, i: usize, source: &str, module: &ModName, old_tex
   let layout = layout_class(old_text);
   let tag = cause_tag(old_text, class);
   let old_had_syntax_errors = parse(old_text, None).syntax_errors > 0;
+  let import_errors_before = acc.resolve(module).map(|mr| import_related_errors(acc, &mr, class, old_text)).unwrap_or_default();
+  let new_text_copy = new_text.clone();
   if !acc.send_update(i, module, new_text) {
     return;
   }
@@ -423,6 +474,18 @@ fn commit(acc: &mut C16Access, i: usize, source: &str, module: &ModName, old_tex
   // (iv) — like (iii) and (v), not asked when the document was already unparsable
   if old_had_syntax_errors {
     return;
+  }
+  // (vi) the import itself must work: no new collision / missing-export / missing-module error
+  if let Some(mr) = acc.resolve(module) {
+    for (kind, text) in import_related_errors(acc, &mr, class, &new_text_copy) {
+      if !import_errors_before.iter().any(|(k, t)| *k == kind && *t == text) {
+        acc.violation(
+          i,
+          format!("{source}|vi_new_import_error_{kind}|{tag}"),
+          format!("after applying the {source} for `{class}` to {} the module reports a new error: {text}", mod_display(module)),
+        );
+      }
+    }
   }
   if let Some(mr) = acc.resolve(module) {
     if unresolved(acc, &mr).iter().any(|(_, n)| n == class) {
